@@ -285,7 +285,14 @@ def rule_shared(ctx):
     W.fifo_batch(ctx, ctx.program, "huginn_net_http", "http", "W.R3")
 
 
+def rule_twins(ctx):
+    """the IPv4 and IPv6 copies of the per-packet functions route sides, roles and lookups identically (shared rule TW)"""
+    from . import _twins as TW
+    TW.twin_agreement(ctx, ctx.program, "TW", ("huginn_net_http",), floor=4)
+
+
 def run(ctx):
+    rule_twins(ctx)
     rule_shared(ctx)
     rule_completeness(ctx)
     rule_segments(ctx)
